@@ -27,13 +27,16 @@ def stepDetect (line : String) : String :=
     | none => "bad-op"
   | _ => "bad-op"
 
-/-- `reader`: `E|I <hex> <hex> ...` (E: end of input follows, I: the input stays open; one word per
-successful Read) → messages joined by ` | ` -/
+/-- `reader`: `E|I|X <hex> <hex> ...` (E: end of input follows, I: the input stays open and then
+fails, X: the last word is returned by the failing Read itself; one word per Read) → messages joined by ` | ` -/
 def stepReader (line : String) : String :=
   let ws := words line
   let eof := ws.head? == some "E"
   match (ws.drop 1).mapM parseHex with
-  | some chunks =>
+  | some chunks0 =>
+    -- X: the last word came TOGETHER with a non-EOF error: readAnsiInputs looks at the error
+    -- first and returns at once; those bytes are never decoded
+    let chunks := if ws.head? == some "X" then chunks0.dropLast else chunks0
     match readAll Tea.Gen.extSequences Tea.Gen.seqLengths eof chunks [] [] with
     | .ok (out, _) => " | ".intercalate (out.map fun o =>
         match o.msg with
